@@ -196,7 +196,75 @@ class GuardView:
                 out.append(t[2][1])
         return out
 
+    def _is_child_prefix(self, t, key):
+        """t is format!("{}/", key) (or key + "/")"""
+        from .facts import decode_fmt_template
+        t = _peel(t)
+        while t[0] == "call" and t[1] in ("Into::into", "From::from", "hint::must_use", "String::as_str", "Deref::deref", "AsRef::as_ref") and t[2]:
+            t = t[2][0]
+        if not (t[0] == "call" and t[1] == "fmt::format" and t[2]):
+            return False
+        a = t[2][0]
+        if not (a[0] == "call" and short_name(a[1]) == "new" and len(a[2]) == 2 and a[2][0][0] == "bytes"):
+            return False
+        tpl = decode_fmt_template(a[2][0][1])
+        args = a[2][1][1] if a[2][1][0] == "array" else ()
+        if [k for k, _ in tpl] != ["arg", "lit"] or tpl[1][1] != "/":
+            return False
+        x = args[tpl[0][1]] if tpl[0][1] < len(args) else ("unknown",)
+        if x[0] == "call" and x[2]:
+            x = x[2][0]
+        return same_key(x, key)
+
+    def _no_child_scan(self, g, key):
+        """guard `!map.keys().any(|k| k.starts_with(key + "/") [&& !k[prefix.len()..].contains('/')])`: no key is a child"""
+        if not (g[0] == "bool" and g[2] is False and g[1][0] == "call" and g[1][1] == "Iterator::any" and len(g[1][2]) == 2):
+            return False
+        src, clo = g[1][2]
+        if not (src[0] == "call" and src[1] in ("HashMap::keys", "BTreeMap::keys", "HashMap::iter", "BTreeMap::iter")):
+            return False
+        if clo[0] != "closure" or self.inter is None:
+            return False
+        cb = self.inter.facts.body(clo[1])
+        if cb is None:
+            return False
+        D = _discharger(self.inter.facts)
+        cases = self.inter.ret_cases(cb)
+        if not cases:
+            return False
+        saw_true = False
+        for ct, _, bb in cases:
+            c = norm(ct)
+            gs = D.guards(cb, bb)
+            sw = None
+            for g2 in gs:
+                if g2[0] == "bool" and g2[1][0] == "call" and g2[1][1] == "str::starts_with" and len(g2[1][2]) == 2 and \
+                        self._is_child_prefix(g2[1][2][1], key):
+                    sw = g2[2]
+            if c[0] == "call" and c[1] == "str::starts_with" and len(c[2]) == 2 and self._is_child_prefix(c[2][1], key):
+                saw_true = True   # |k| k.starts_with(prefix): true for every descendant
+                continue
+            if c == ("int", 0):
+                # false is only allowed for keys that are not children: under !starts_with(prefix)
+                if sw is not False:
+                    return False
+                continue
+            if sw is not True:
+                return False
+            if c == ("int", 1):
+                saw_true = True
+                continue
+            # !k[prefix.len()..].contains('/'): true for every direct child
+            if c[0] == "un" and c[1] == "Not" and c[2][0] == "call" and c[2][1] == "str::contains" and c[2][2][1] == ("char", "/"):
+                saw_true = True
+                continue
+            return False
+        return saw_true
+
     def empty_dir(self, key):
+        for g in self.gs:
+            if self._no_child_scan(g, key):
+                return True
         for g in self.gs:
             if g[0] == "bool" and g[1][0] == "call" and g[1][1] in ("Option::is_some", "Option::is_none") and g[1][2]:
                 want_none = (g[1][1] == "Option::is_some" and g[2] is False) or (g[1][1] == "Option::is_none" and g[2] is True)
@@ -208,6 +276,18 @@ class GuardView:
                     if it[0] == "call" and short_name(it[1]) == "read_dir" and len(it[2]) == 2 and same_key(it[2][1], key):
                         return True
         return False
+
+
+_DISCHARGERS = {}
+
+
+def _discharger(facts):
+    d = _DISCHARGERS.get(id(facts))
+    if d is None or d.facts is not facts:
+        d = Discharger(facts)
+        _DISCHARGERS.clear()
+        _DISCHARGERS[id(facts)] = d
+    return d
 
 
 def _peel(t):
@@ -267,7 +347,26 @@ class MemoryModel:
                 if sh in MAP_MUTATORS:
                     key = norm(tr.operand(t.args[1])) if len(t.args) > 1 else None
                     out.append((cb, blk.idx, sh, key, t.line))
+            # the whole map replaced at once (`handle.files = rebuilt;`): counts as inserting every new key
+            mapf = self.map_fields()
+            for blk in cb.blocks:
+                if blk.cleanup:
+                    continue
+                for st in blk.stmts:
+                    if st.kind == "assign" and not st.lhs.is_local():
+                        fs = st.lhs.fields()
+                        if fs and fs[-1] in mapf:
+                            out.append((cb, blk.idx, "map replaced (insert of every new key)", None, st.line))
         return out
+
+    def map_fields(self):
+        """names of struct fields of the backend's module whose type is the key->entry map (identified by type)"""
+        if not hasattr(self, "_mapf"):
+            mod = self.self_ty.rsplit("::", 1)[0] + "::"
+            self._mapf = {f["name"] for name, a in self.facts.adts.items() if name.startswith(mod)
+                          for v in a["variants"] for f in v["fields"]
+                          if f["ty"].startswith(("std::collections::HashMap<", "std::collections::BTreeMap<", "std::collections::hash_map::HashMap<"))}
+        return self._mapf
 
     def field_writes(self, b):
         """[(code body, bb, field, line)] writes to fields of a map entry (through get_mut)"""
